@@ -260,6 +260,9 @@ def main(argv=None):
         elif inconclusive_units:
             # a whole unit could not be encoded from the current tree: no verdict for its queries
             exit_code = 2
+        elif any(r["status"] == "ERROR" and "build or tool failure" in r.get("reason", "") for r in inconc):
+            # the generated crate no longer compiles against the current source: the encoding is stale, say so
+            exit_code = 2
 
     write_evidence(prop, tier, seed, t0, unit_infos, results, passed, violations, known_hits, inconc, inconclusive_units, fixed)
     print(f"property={prop} tier={tier} queries={len(results)} held={len(passed)} violations={len(violations)} "
